@@ -1,6 +1,8 @@
 //! vcore — the engine for the properties decided on the Rust crate through its public API plus
 //! the cfg(blake3_team_blake3_verif) hooks. One sub-engine per property; see /verif/DESIGN.md.
 mod c01;
+mod hbfs;
+mod lanes;
 mod subject;
 
 use vcommon::{Args, Report};
@@ -19,6 +21,7 @@ fn main() {
         let v: vcommon::serde_json::Value = vcommon::serde_json::from_str(&text).expect("replay json");
         let reproduced = match args.prop.as_str() {
             "C01" => c01::replay(&v),
+            "C02" | "C10" => hbfs::replay(&v),
             _ => {
                 eprintln!("no replay for {}", args.prop);
                 std::process::exit(2);
@@ -29,6 +32,7 @@ fn main() {
     }
     let (engine, level) = match args.prop.as_str() {
         "C01" => ("core/oneshot", "exploration"),
+        "C02" | "C10" => ("core/hasher_bfs", "model_checking"),
         _ => {
             eprintln!("vcore does not serve {}", args.prop);
             std::process::exit(2);
@@ -37,6 +41,31 @@ fn main() {
     let mut rep = Report::new(&args, engine, level);
     match args.prop.as_str() {
         "C01" => c01::run(&args, &mut rep),
+        "C02" => {
+            let t = args.thorough();
+            let cfgs = vec![hbfs::cfg_fine("C02", t), hbfs::cfg_coarse("C02", t)];
+            let streams: &[&str] = if t { &["A", "B"] } else { &["A"] };
+            hbfs::run(&args, &mut rep, cfgs, subject::primary_modes(), streams);
+            rep.rule = "BFS over the real Hasher from the fresh state: update(next k bytes of the stream) for k in the fine alphabet (all paths, bounded total) and the coarse alphabet (chunk multiples, bounded deviations), merged on the complete state; in every state count/finalize/finalize_xof/finalize_non_root vs the spec, purity, clone independence, structural invariants; on every transition Write::write/update_reader(/update_rayon) == update; non-trivial = distinct states reached by >= 2 updates".into();
+        }
+        "C10" => {
+            let t = args.thorough();
+            let mut fine = hbfs::cfg_fine("C10", t);
+            fine.name = "fine+reset+offsets".into();
+            fine.with_reset = true;
+            fine.offsets = vec![1024, 3 * 1024, 4096, 1u64 << 42, (1u64 << 42) + 2048];
+            fine.adapters = false;
+            let mut coarse = hbfs::cfg_coarse("C10", t);
+            coarse.name = "coarse+reset+offsets".into();
+            coarse.with_reset = true;
+            coarse.offsets = vec![64 * 1024, 1u64 << 42];
+            coarse.max_dev = 1;
+            coarse.adapters = false;
+            let mut modes = subject::primary_modes();
+            modes.push(subject::ModeSpec::DeriveCk(vcommon::TEST_CONTEXT.to_string()));
+            hbfs::run(&args, &mut rep, vec![fine, coarse], modes, &["A"]);
+            rep.rule = "the C02 exploration extended with reset() from every reachable state and set_input_offset(o) at count()==0; every post-reset state must be byte-identical (all fields) to a newly constructed hasher of the same mode and is then explored again; clone independence checked on every state; non-trivial = distinct states reached by >= 2 updates".into();
+        }
         _ => unreachable!(),
     }
     rep.write(&args.report);
